@@ -163,7 +163,14 @@ func (p *jsonPathParser) setNodeChain() {
 
 			nextNode := next.(syntaxNode)
 
-			if multiIdentifier, ok := last.(*syntaxChildMultiIdentifier); ok {
+			// A multi-identifier directly after ".." hangs below the
+			// recursive node instead of being an element of the chain.
+			multiCheckNode := last
+			if recursiveIdentifier, ok := last.(*syntaxRecursiveChildIdentifier); ok {
+				multiCheckNode = recursiveIdentifier.getNext()
+			}
+
+			if multiIdentifier, ok := multiCheckNode.(*syntaxChildMultiIdentifier); ok {
 				for _, singleIdentifier := range multiIdentifier.identifiers {
 					singleIdentifier.setNext(nextNode)
 				}
